@@ -846,3 +846,4 @@ RENAME_FUNCS = [(P, 'Measure._parse'), (P, 'Note._parse'), (P, 'ChordSymbol._par
                 (R, 'musicxml_file_to_sequence_proto'), (P, 'Note._parse_pitch'), (P, 'Measure._parse_attributes')]
 
 EXPLANATION += (' Location-independent additions: KEY/tonic-by-signature (the key expression of each mode path folded for all 15 signatures), CONTAIN/zip-name-flag (cp437 re-decoding only under a test of flag_bits & 0x800).')
+EXPLANATION += (' Round 6: ' + "DUP/identity-includes-time (the membership key of the signature de-duplication, or the __eq__ it relies on, includes time_position); DEGREE/subtract-is-no (path-wise with the string scenario degree-type = 'subtract': the result is 'no' + the degree on every feasible path).")
